@@ -34,7 +34,8 @@ use crate::{
     current_time_millis,
     dns_cache::{DnsCache, IpType},
     dns_parser::{
-        ip_address_rr_type, DnsAddress, DnsEntryExt, DnsIncoming, DnsOutgoing, DnsPointer,
+        ip_address_rr_type, name_labels_fit, DnsAddress, DnsEntryExt, DnsIncoming, DnsOutgoing,
+        DnsPointer,
         DnsRecordBox, DnsRecordExt, DnsSrv, DnsTxt, InterfaceId, RRType, ScopedIp,
         CLASS_CACHE_FLUSH, CLASS_IN, FLAGS_AA, FLAGS_QR_QUERY, FLAGS_QR_RESPONSE, MAX_MSG_ABSOLUTE,
     },
@@ -489,6 +490,7 @@ impl ServiceDaemon {
         timeout: Option<u64>,
     ) -> Result<Receiver<HostnameResolutionEvent>> {
         check_hostname(hostname)?;
+        check_label_lengths(hostname)?;
         let (resp_s, resp_r) = bounded(10);
         self.send_cmd(Command::ResolveHostname(
             hostname.to_string(),
@@ -530,6 +532,7 @@ impl ServiceDaemon {
     pub fn register(&self, service_info: ServiceInfo) -> Result<()> {
         check_service_name(service_info.get_fullname())?;
         check_hostname(service_info.get_hostname())?;
+        check_label_lengths(service_info.get_hostname())?;
 
         self.send_cmd(Command::Register(service_info.into()))
     }
@@ -4347,6 +4350,13 @@ fn check_domain_suffix(name: &str) -> Result<()> {
         ));
     }
 
+    if !name_labels_fit(name) {
+        return Err(e_fmt!(
+            "mDNS service {} has a label longer than 63 bytes",
+            name
+        ));
+    }
+
     Ok(())
 }
 
@@ -4384,6 +4394,14 @@ fn check_service_name(fullname: &str) -> Result<()> {
         ));
     }
 
+    Ok(())
+}
+
+/// Checks that every label of `name` fits in a DNS label (63 bytes).
+fn check_label_lengths(name: &str) -> Result<()> {
+    if !name_labels_fit(name) {
+        return Err(e_fmt!("{} has a label longer than 63 bytes", name));
+    }
     Ok(())
 }
 
